@@ -228,6 +228,39 @@ class Session:
             return
         self.failed_attempts = getattr(self, "failed_attempts", 0) + 1
 
+    def interrupted_last_step(self):
+        """round 6, after the history (the trace is complete, nothing here reaches the model): one more step that is
+        INTERRUPTED after the wrapped simulation was advanced - the last agent's 'send' names an agent that does not
+        exist.  "Buffers are cleared every step": whatever the interrupted step leaves in the message buffer, a message
+        from a sender that did not send in THIS step must not be there any more."""
+        w, sim = self.w, self.sim
+        mb = getattr(w, "message_buffer", None)
+        if not isinstance(mb, dict) or not any(any(bool(v) for v in row.values()) for row in mb.values()
+                                               if isinstance(row, dict)):
+            return                                           # nothing pending: nothing could survive
+        ids = [sim.ids[i] for i in range(self.n) if self.script["learning"][i]]
+        try:
+            ids = [k for k in ids if not sim.get_done(k)]
+        except Exception:  # noqa: BLE001
+            return
+        if not ids:
+            return
+        ad = {k: {"action": 0, "send": {o: 0 for o in sim.ids if o != k}, "receive": {o: 0 for o in sim.ids if o != k}}
+              for k in ids}
+        ad[ids[-1]]["send"]["nobody_of_this_name"] = 1       # KeyError once the simulation has stepped
+        try:
+            w.step(ad)
+            return                                           # accepted: not the situation this is about
+        except mgr.Hang:
+            raise
+        except Exception:  # noqa: BLE001
+            pass
+        mb = getattr(w, "message_buffer", None)
+        if isinstance(mb, dict) and any(any(bool(v) for v in row.values()) for row in mb.values() if isinstance(row, dict)):
+            self.mem_fail.append(("a message sent in an earlier step is still in the message buffer after a step that "
+                                  "was interrupted once the simulation had advanced (nobody sent in that step)",
+                                  len(self.ops)))
+
     def check_obs(self, a, val):
         try:
             ok = val in self.w.agents[self.aid(a)].observation_space
@@ -255,6 +288,8 @@ def run_concrete(script, style, ops):
                 break
             s.apply(op)
     watchdog(s, go, lambda: ops[len(s.ops)])
+    if not s.dead and len(ops) % 2 == 0:
+        mgr.guarded(s.interrupted_last_step, seconds=10.0)
     return s
 
 
